@@ -207,6 +207,7 @@ RetRealloc(c, r) ==
   /\ IF r.null
      THEN /\ GD("WellFormedSucceeds", c.op, NullAllowed(c))
           /\ (c.cls = "overflow" /\ c.op \in {"reallocarray", "reallocarr"} => GD("ErrCode", c.op, r.errno \in {12, 75}))
+          /\ (c.op = "reallocarr" => GD("OutParamUnchanged", c.op, r.outkeep))      \* the caller's pointer still designates the original block
           /\ IF hasOld /\ c.op \notin FreeingOnFailOps
              THEN \* the original block is untouched and still valid
                   /\ GD("FailedReallocKeepsOld", c.op, r.keep >= old.wr)
